@@ -167,11 +167,16 @@ func runCell(c *run.Ctx, cell c14Cell) {
 		if strings.Contains(string(p), marker) {
 			return true
 		}
-		// the client may hand a packet over in parts: in a first part the
-		// marker may lie beyond
-		// (other packets of the type went out before the request was made)
-		hl, rem, err := wire.Header(p)
-		return reqMade && (err != nil || hl+rem > len(p))
+		// the client may hand a packet over in parts: a first part may end
+		// inside the marker
+		if reqMade {
+			for k := len(marker) - 1; k >= 2; k-- {
+				if strings.HasSuffix(string(p), marker[:k]) {
+					return true
+				}
+			}
+		}
+		return false
 	}
 	reqWrites := 0
 	faultInjected := false
